@@ -12,10 +12,17 @@
   Sections 1–5 read the option records one population / one pair at a time.  Section 6 runs
   the whole command through `msSemG` (Spec/C07Sem.lean: the backwards-time interpreter of
   Spec/MsSem.lean over typed tokens, so that symbolic growth rates need not be evaluated) and
-  compares the result with `graphSem g'` by the relation `≈` (`semMatches`).
+  compares the result with `graphSem` by the relation `≈` (`semMatches`).  `to_ms` renormalises
+  the ancestry proportions of a deme (`p_k / sum(p[k:])`), and validation only asks that they sum
+  to one within 1e-9: the command denotes the demography of `normalizeProportions g` (every
+  deme's proportions divided by their sum), for every valid ms-expressible graph (`toMs_sem`);
+  that graph is `g` itself when the sums are exactly one (`toMs_sem_partial`), and is within the
+  tolerance of validation otherwise (`normalizeProportions_close`).
 -/
 import DemesVerif.Proofs.ToMsSem
+import DemesVerif.Proofs.ToMsNorm
 import DemesVerif.Proofs.ToMsExamples
+import DemesVerif.Proofs.ToMsNormExamples
 namespace Demes.Theorems
 open Demes Demes.Ms Demes.Spec Demes.Spec.C07
 
@@ -143,15 +150,71 @@ theorem toMs_sem_parts {g : Graph} (hv : validGraph g = true) (hx : MsExpressibl
       ∧ (ExactProportions g = true → movesMatch sem gs = true) :=
   Proofs.ToMs.toMs_sem_run hv hx hN hs
 
-/-- `toMs_sem`, with the hypothesis the proof forces (see `toMs_sem_counterexample`): if moreover
-the ancestry proportions of every deme sum to exactly one, the demography of the emitted
-command `≈` the demography of the graph. -/
+/-- Normalising the ancestry proportions of a valid graph gives a valid graph, ms-expressible
+and with the same `samples` condition as before, whose proportions sum to exactly one. -/
+theorem normalizeProportions_valid {g : Graph} (hv : validGraph g = true) :
+    validGraph (normalizeProportions g) = true ∧ ExactProportions (normalizeProportions g) = true
+      ∧ MsExpressible (normalizeProportions g) = MsExpressible g
+      ∧ ∀ samples, samplesOk (normalizeProportions g) samples = samplesOk g samples :=
+  ⟨Proofs.ToMsNorm.validGraph_norm hv, Proofs.ToMsNorm.exact_norm (Proofs.ToMs.clauses_of_valid hv).h4,
+    Proofs.ToMsNorm.expr_norm g, Proofs.ToMsNorm.samplesOk_norm g⟩
+
+/-- `to_ms` does not see a common factor of a deme's ancestry proportions: the command emitted
+for a valid ms-expressible graph is the command emitted for its normalisation. -/
+theorem toMs_normalizeProportions {g : Graph} (hv : validGraph g = true) (hx : MsExpressible g = true)
+    {N0 : Q} (hN : 0 < N0) {samples : Option (List Int)} (hs : samplesOk g samples = true) :
+    toMs (normalizeProportions g) N0 samples = toMs g N0 samples :=
+  Proofs.ToMsNorm.toMs_norm hv hx hN hs
+
+/-- **The demography of the command.**  For every valid ms-expressible graph, every positive
+`N0` and every well-formed `samples`: `toMs` succeeds, the command reads back, has a meaning `sem`
+under the ms semantics, the graph with its ancestry proportions normalised
+(`normalizeProportions`, Spec/C07Sem.lean: each deme's proportions `p` replaced by `p / sum p`,
+nothing else changed) has a demography `gs`, and `sem ≈ gs`: same populations, sizes, migration
+rates and lineage movements (`semMatches`). -/
+theorem toMs_sem {g : Graph} (hv : validGraph g = true) (hx : MsExpressible g = true)
+    {N0 : Q} (hN : 0 < N0) {samples : Option (List Int)} (hs : samplesOk g samples = true) :
+    ∃ c cmd sem gs, toMs g N0 samples = .ok c ∧ parseCmd c = some cmd ∧ msSemG cmd N0 = .ok sem
+      ∧ MsSem.graphSem (inGenerations (normalizeProportions g)) none = .ok gs
+      ∧ semMatches N0 sem gs = true :=
+  Proofs.ToMsNorm.toMs_sem hv hx hN hs
+
+/-- Normalisation does nothing to a graph whose proportions sum to exactly one. -/
+theorem normalizeProportions_exact {g : Graph} (hex : ExactProportions g = true) :
+    normalizeProportions g = g :=
+  Proofs.ToMsNorm.normalizeProportions_exact hex
+
+/-- Normalisation stays within the tolerance of validation.  For a valid graph: the demes of
+`normalizeProportions g` are those of `g`, position by position, each with all its fields but
+`proportions` unchanged and as many proportions as before; the `k`-th proportion `p` of a deme
+becomes `p' = p / sum`, and `|p' - p| ≤ relTol / (1 - relTol) · p`, where `relTol` is the double
+`1e-9` of `math.isclose` (validation accepts a sum `s` with `|s - 1| ≤ relTol · max(s, 1)`, and
+`|p/s - p| = p · |1 - s| / s`). -/
+theorem normalizeProportions_close {g : Graph} (hv : validGraph g = true) :
+    (normalizeProportions g).demes.length = g.demes.length ∧
+    ∀ (i : Nat) (d : Deme), g.demes[i]? = some d →
+      ∃ d' : Deme, (normalizeProportions g).demes[i]? = some d'
+        ∧ d' = { d with proportions := d'.proportions }
+        ∧ d'.proportions.length = d.proportions.length
+        ∧ ∀ (k : Nat) (p : Q), d.proportions[k]? = some p →
+            ∃ p' : Q, d'.proportions[k]? = some p' ∧ p' = p / qsumS d.proportions
+              ∧ qabs (p' - p) ≤ relTol / (1 - relTol) * p :=
+  Proofs.ToMsNorm.normalizeProportions_close hv
+
+/-- the bound of `normalizeProportions_close` in figures: a relative error below `1e-9 + 1.1e-18` -/
+theorem normalizeProportions_tolerance : relTol / (1 - relTol) < 1 / 10 ^ 9 + 11 / 10 ^ 19 :=
+  Proofs.ToMsNorm.relTol_bound
+
+/-- `toMs_sem` for the un-normalised graph, with the hypothesis this formulation needs (see
+`toMs_sem_counterexample`): if the ancestry proportions of every deme sum to exactly one, the
+demography of the emitted command `≈` the demography of the graph.  A corollary of `toMs_sem`:
+normalisation does nothing to such a graph. -/
 theorem toMs_sem_partial {g : Graph} (hv : validGraph g = true) (hx : MsExpressible g = true)
     (hex : ExactProportions g = true)
     {N0 : Q} (hN : 0 < N0) {samples : Option (List Int)} (hs : samplesOk g samples = true) :
     ∃ c cmd sem gs, toMs g N0 samples = .ok c ∧ parseCmd c = some cmd ∧ msSemG cmd N0 = .ok sem
-      ∧ MsSem.graphSem (inGenerations g) none = .ok gs ∧ semMatches N0 sem gs = true :=
-  Proofs.ToMs.toMs_sem hv hx hex hN hs
+      ∧ MsSem.graphSem (inGenerations g) none = .ok gs ∧ semMatches N0 sem gs = true := by
+  simpa only [normalizeProportions_exact hex] using toMs_sem hv hx hN hs
 
 /-- Without exact proportions the movement part of `≈` fails: `exInexact` is `ex1` with the
 admixture proportions `[1/4, 3/4 + 2⁻⁴⁰]` (valid: the sum is within 1e-9 of one).  `to_ms`
@@ -164,9 +227,19 @@ theorem toMs_sem_counterexample :
       ∧ toMsDenotes Proofs.ToMs.exInexact 2 none = some (true, true, false) := by
   decide +kernel
 
+/-- The same with a single ancestor: `exSingleInexact` is `exSplit` with the proportion of `B`'s
+only ancestor equal to `1 - 2⁻⁴⁰` (valid).  `to_ms` emits `-ej` alone, which moves every lineage of
+`B` to `A`; the graph as stored moves a lineage with probability `1 - 2⁻⁴⁰`. -/
+theorem toMs_sem_counterexample_single :
+    validGraph Proofs.ToMsNorm.exSingleInexact = true ∧ MsExpressible Proofs.ToMsNorm.exSingleInexact = true
+      ∧ ExactProportions Proofs.ToMsNorm.exSingleInexact = false
+      ∧ toMsDenotes Proofs.ToMsNorm.exSingleInexact 2 none = some (true, true, false) := by
+  decide +kernel
+
 /-! ## Non-vacuity -/
 
 open Demes.Proofs.ToMs (ex1 ex1Linear ex1TwoSources exSplit exInexact)
+open Demes.Proofs.ToMsNorm (exSingleInexact exInexactBelow proportionsOf)
 
 /-- the hypotheses are satisfiable: three demes in years, an exponential epoch, an admixture, a
 migration switched on and off, a pulse; the sawtooth; a split -/
@@ -234,6 +307,34 @@ example : toMsDenotes ex1 2 none = some (true, true, true) := by decide +kernel
 example : toMsDenotes ex1 (1 / 4) (some [1, 2, 3]) = some (true, true, true) := by decide +kernel
 example : toMsDenotes sawtooth 1 none = some (true, true, true) := by decide +kernel
 example : toMsDenotes exSplit 2 none = some (true, true, true) := by decide +kernel
+
+/-- `toMs_sem` where `toMs_sem_partial` does not apply: the hypotheses hold and `ExactProportions`
+fails on `exInexact` (two ancestors, proportions `[1/4, 3/4 + 2⁻⁴⁰]`, sum `1 + 2⁻⁴⁰`), on
+`exInexactBelow` (`[1/4, 3/4 - 2⁻⁴⁰]`) and on `exSingleInexact` (one ancestor, `[1 - 2⁻⁴⁰]`); on each
+the command denotes the demography of the normalised graph (checked by evaluation) and not that
+of the graph as stored -/
+example : validGraph exInexact = true ∧ MsExpressible exInexact = true ∧ samplesOk exInexact none = true
+    ∧ (0 : Q) < 2 ∧ ExactProportions exInexact = false
+    ∧ proportionsOf exInexact = [[], [1], [1/4, 3/4 + 1/1099511627776]]
+    ∧ proportionsOf (normalizeProportions exInexact)
+        = [[], [1], [274877906944 / 1099511627777, 824633720833 / 1099511627777]] := by decide +kernel
+example : toMsDenotesNorm exInexact 2 none = some (true, true, true)
+    ∧ toMsDenotes exInexact 2 none = some (true, true, false) := by decide +kernel
+example : validGraph exInexactBelow = true ∧ MsExpressible exInexactBelow = true
+    ∧ ExactProportions exInexactBelow = false
+    ∧ toMsDenotesNorm exInexactBelow 2 (some [1, 2, 3]) = some (true, true, true)
+    ∧ toMsDenotes exInexactBelow 2 (some [1, 2, 3]) = some (true, true, false) := by decide +kernel
+example : validGraph exSingleInexact = true ∧ MsExpressible exSingleInexact = true
+    ∧ ExactProportions exSingleInexact = false
+    ∧ proportionsOf (normalizeProportions exSingleInexact) = [[], [1]]
+    ∧ toMsDenotesNorm exSingleInexact 2 none = some (true, true, true) := by decide +kernel
+/-- on graphs with exact proportions the two comparisons coincide -/
+example : toMsDenotesNorm ex1 2 none = some (true, true, true)
+    ∧ normalizeProportions ex1 = ex1 := ⟨by decide +kernel, normalizeProportions_exact (by decide +kernel)⟩
+/-- `normalizeProportions_close` on `exInexact`: the proportion `1/4` of `C` moves by
+`(1/4) · 2⁻⁴⁰ / (1 + 2⁻⁴⁰)`, below the bound -/
+example : qabs ((274877906944 : Q) / 1099511627777 - 1/4) = 1 / 4398046511108
+    ∧ (1 : Q) / 4398046511108 ≤ relTol / (1 - relTol) * (1/4) := by decide +kernel
 
 /-- `≈` is not vacuous: the demography of the command of `ex1` is not that of `exSplit`, and the
 command of the sawtooth without its second `-eg` (the defective output) does not denote the
